@@ -4,4 +4,3 @@ func stub(name string) string {
 	return "-- GENERATED placeholder (" + name + ")\nimport Rpcx.Basic\n"
 }
 
-func genSites() string   { return stub("Sites") }
